@@ -296,6 +296,26 @@ def run(ctx):
         before13 = top13[:upd[0]]
         ok13 = any(_definitely_assigns(s_, "control_scale") for s_ in before13)
         some13 = any(_assigns_member(y_, "control_scale") for s_ in before13 for y_ in A.walk(s_))
+        if not ok13:
+            # a helper of the unit, called unconditionally in front of updateMapping, that assigns the scale on every path to each
+            # of its exits (early returns included) stands for the assignment
+            for s_ in before13:
+                e_ = A.strip_casts(s_)
+                while e_.get("kind") in ("ExprWithCleanups", "ParenExpr") and A.kids(e_):
+                    e_ = A.strip_casts(A.kids(e_)[0])
+                if e_.get("kind") not in ("CallExpr", "CXXMemberCallExpr"):
+                    continue
+                hs_ = [f_ for q_, fl_ in u.functions.items() if q_.split("::")[-1] == (_call_name(e_) or "") for f_ in fl_ if u.body(f_) is not None]
+                if len(hs_) != 1:
+                    continue
+                try:
+                    okx_, aft_ = _exits_assign(A.kids(u.body(hs_[0])), "control_scale", False)
+                except _Undecided:
+                    continue
+                if any(_assigns_member(y_, "control_scale") for y_ in A.walk(u.body(hs_[0]))):
+                    some13 = True
+                    if okx_ and aft_ is not False:
+                        ok13 = True
         if not some13:
             # written somewhere else (a helper that sets the whole mapping): not followed
             helpers13 = [c_ for s_ in before13 for c_ in A.walk(s_) if c_.get("kind") in ("CallExpr", "CXXMemberCallExpr")]
@@ -729,6 +749,52 @@ def _assigns_member(y, name):
         l = A.strip_casts(A.kids(y)[0])
         return l.get("kind") == "MemberExpr" and l.get("name") == name
     return False
+
+
+class _Undecided(Exception):
+    pass
+
+
+def _exits_assign(stmts, name, assigned):
+    """walks a statement list with early returns: -> (every `return` met so far happens with the member assigned,
+    state at the end of the list: True / False, or None when no path falls through).  Loops and switches that
+    contain a return or an assignment of the member are not decided (_Undecided)."""
+    ok = True
+    for st in stmts:
+        k = st.get("kind")
+        if k == "ReturnStmt":
+            return ok and assigned, None
+        if k == "CompoundStmt":
+            o_, a_ = _exits_assign(A.kids(st), name, assigned)
+            ok = ok and o_
+            if a_ is None:
+                return ok, None
+            assigned = a_
+            continue
+        if k == "IfStmt":
+            ks = A.kids(st)
+            lead = (1 if st.get("hasInit") else 0) + (1 if st.get("hasVar") else 0)
+            if any(_assigns_member(y_, name) for y_ in A.walk(ks[lead])):
+                raise _Undecided()
+            br = ks[lead + 1:]
+            res = []
+            for b_ in br:
+                res.append(_exits_assign(A.kids(b_) if b_.get("kind") == "CompoundStmt" else [b_], name, assigned))
+            if len(br) == 1:
+                res.append((True, assigned))
+            ok = ok and all(r_[0] for r_ in res)
+            falls = [r_[1] for r_ in res if r_[1] is not None]
+            if not falls:
+                return ok, None
+            assigned = all(falls)
+            continue
+        if k in ("ForStmt", "WhileStmt", "DoStmt", "SwitchStmt", "CXXForRangeStmt", "GotoStmt", "LabelStmt", "CXXTryStmt"):
+            if any(y_.get("kind") == "ReturnStmt" or _assigns_member(y_, name) for y_ in A.walk(st)):
+                raise _Undecided()
+            continue
+        if any(_assigns_member(y_, name) for y_ in A.walk(st)):
+            assigned = True
+    return ok, assigned
 
 
 def _definitely_assigns(st, name):
